@@ -471,6 +471,56 @@ func scenarioReacquireDuringClose(c *Ctx, cached, closable bool) {
 	c.Cov.Schedules++
 }
 
+// a closed subscope still holding unreported values is being re-acquired -- the application thread is inside the
+// one-off report of the closed scope, parked right before the reporter call -- when the root's Close is called.  The
+// value was recorded before Close: Close may not return (nor flush for the last time) before it has been delivered.
+func scenarioReacquireReportDuringClose(c *Ctx, cached, closable bool) {
+	w := newWorld(cached, 0, 1, closable)
+	x := w.root.SubScope("x")
+	w.inc(x.Counter("c"), "x.c", 5)
+	x.(io.Closer).Close()
+	w.note("x.c=5 recorded, x closed (not collected)")
+	s := NewSched(nil)
+	s.ParkOnT = func(th, l string) bool { return th == "U" && l == "counter.deliver" }
+	s.Timeout = 300 * time.Millisecond
+	U := s.Spawn("U", func() { w.root.SubScope("x") })
+	l0 := runUntil(s, U, func(l, _ string) bool { return l == "counter.deliver" })
+	w.note("U (Subscope x) parked at %s: x.c swapped, not yet handed to the reporter", l0)
+	C := s.Spawn("C", func() { w.closer.Close() })
+	l1 := runUntil(s, C, never)
+	w.note("C (root Close) %s", l1)
+	if C.Done {
+		_, order := w.delivered()
+		c.Cov.Fail(Failure{Kind: "violated", Clause: "recorded-before-close-delivered-exactly-once", Signature: "close-returns-during-reacquire-report", Line: strings.Join(w.trace, " | "),
+			Reply: fmt.Sprintf("the root's Close returned while the re-acquire report of a closed subscope still held x.c=5 (recorded before Close); reporter log %v", order)})
+	}
+	l2 := runUntil(s, U, never)
+	w.note("U %s", l2)
+	if !C.Done {
+		l3, _ := s.Step(C)
+		w.note("C %s", l3)
+	}
+	s.Finish()
+	_, order := w.delivered()
+	w.note("reporter log %v", order)
+	line := strings.Join(w.trace, " | ")
+	lastDel, lastFlush := -1, -1
+	for i, e := range order {
+		if e == "flush" {
+			lastFlush = i
+		} else if e != "close" {
+			lastDel = i
+		}
+	}
+	if lastDel > lastFlush {
+		c.Cov.Fail(Failure{Kind: "violated", Clause: "delivered-then-flushed-before-close-returns", Signature: "close-returns-during-reacquire-report", Line: line,
+			Reply: fmt.Sprintf("a value recorded before Close reached the reporter after the last Flush: %v", order)})
+	}
+	w.checkConservation(c, "C08", "close-returns-during-reacquire-report")
+	c.Cov.Eval(line, true)
+	c.Cov.Schedules++
+}
+
 // everything recorded before Close delivered, then flush, then exactly one reporter close, nothing after; loop goroutine gone
 func checkCloseBarrier(c *Ctx, w *world, sig string) {
 	w.checkConservation(c, "C08", sig)
@@ -556,6 +606,8 @@ func suiteC08Conc(c *Ctx) {
 		scenarioCloseDuringPass(c, cached)
 		scenarioReacquireDuringClose(c, cached, true)
 		scenarioReacquireDuringClose(c, cached, false)
+		scenarioReacquireReportDuringClose(c, cached, true)
+		scenarioReacquireReportDuringClose(c, cached, false)
 	}
 	n := c.N(40, 600)
 	for i := 0; i < n; i++ {
